@@ -64,6 +64,8 @@ def gen_program(rng, features=None, n_nodes=None, n_modules=None):
             nd["nestkind"] = rng.choice(["lambda", "listcomp", "genexp", "innerdef"])
         if rng.random() < F.get("p_setc", 0.35):
             nd["setc"] = 1
+            if rng.random() < 0.4:
+                nd["setck"] = "tup"     # the set constant holds tuples of strings instead of strings
         if rng.random() < F.get("p_tup", 0.35):
             nd["tup"] = 1
         if rng.random() < F.get("p_fstr", 0.3):
@@ -109,6 +111,16 @@ def gen_program(rng, features=None, n_nodes=None, n_modules=None):
             if readers:
                 rd = readers[rng.randrange(len(readers))]
                 rd["globals"] = [g for g in rd["globals"] if g not in ids] + ids
+    if rng.random() < F.get("p_prefixname", 0.3) and len(nodes) >= 3:
+        # one function's name is the beginning of another's (f1 / f10), and likewise for two variables (G0 / G00)
+        i = rng.randrange(1, len(nodes))
+        j = rng.choice([k for k in range(1, len(nodes)) if k != i])
+        if not nodes[j].get("frozen") and not nodes[i].get("frozen"):
+            nodes[j]["name"] = nodes[i]["name"] + "0"
+        plain_g = [g for g in glob if g["name"].startswith("G") and g["name"] != "GS" and not g.get("src")]
+        if len(plain_g) >= 2:
+            a, b = rng.sample(plain_g, 2)
+            b["name"] = a["name"] + "0"
     for nd in nodes:
         if nd["kind"] == "plain" and not nd.get("frozen") and rng.random() < F.get("p_lambda", 0.35):
             nd["lam"] = True      # a plain helper written as a lambda bound to a name
@@ -441,7 +453,10 @@ def render_node(prog, nid, decorator="m.memento_function"):
                 lines.append("        return %d" % nd["nested"])
             items.append("inner()")
     if nd["setc"] is not None:
-        items.append('("s%d" if "s%d" in {"s%d", "t"} else "no")' % (nd["setc"], nd["setc"], nd["setc"]))
+        if nd.get("setck") == "tup":
+            items.append('("s%d" if ("a", "s%d") in {("a", "s%d"), ("b", "t"), ("c", "u"), ("d", "v")} else "no")' % (nd["setc"], nd["setc"], nd["setc"]))
+        else:
+            items.append('("s%d" if "s%d" in {"s%d", "t"} else "no")' % (nd["setc"], nd["setc"], nd["setc"]))
     if nd["tup"] is not None:
         items.append("list((%d, 1))" % nd["tup"])
     if nd["fstr"] is not None:
